@@ -116,7 +116,21 @@ func (ex *Exec) applyContract(st *State, ct *Contract, f *types.Func, recv Val, 
 	}
 	mkEnv := func(s *State, b map[string]Val) *CEnv {
 		return &CEnv{ex: ex, st: s, bound: map[string]*Term{}, lets: lets,
-			lookup: func(n string) (Val, bool) { v, ok := b[n]; return v, ok }}
+			lookup: func(n string) (Val, bool) {
+				if v, ok := b[n]; ok {
+					return v, true
+				}
+				// package-level names of the callee's package
+				if f.Pkg() != nil {
+					switch o := f.Pkg().Scope().Lookup(n).(type) {
+					case *types.Var:
+						return ex.globalVar(s, o), true
+					case *types.Const:
+						return constVal(o.Val(), o.Type()), true
+					}
+				}
+				return nil, false
+			}}
 	}
 	oldEnv := mkEnv(pre, bind)
 	oldEnv.ok, oldEnv.ok0 = pre.ok, pre.ok
@@ -416,7 +430,7 @@ func (ex *Exec) freshDims(st *State, dims []int, ek *Kind, hint string) Val {
 			ex.substState(st, m)
 			s2 := *s
 			s2.Len = IntLit(int64(dims[0]))
-			if dims[0] <= 4096 {
+			if dims[0] <= 64 {
 				return s2.explode()
 			}
 			return &s2
